@@ -203,7 +203,8 @@ fn svr_obs<K: Kernel<f64, Vec<f64>> + serde::Serialize>(m: &SVR<f64, DM, K>, que
     (serde_json::to_value(m).expect("serialise SVR"), m.predict(&q).expect("predict"))
 }
 
-const LABELS: &[(f64, f64)] = &[(-1.0, 1.0), (2.0, 3.0), (-3.0, 7.0)];
+// the third pair is non-dyadic with mixed sign: a label must come back bit for bit (lo + (hi - lo) != hi there)
+const LABELS: &[(f64, f64)] = &[(-1.0, 1.0), (2.0, 3.0), (-2.5, 0.3)];
 
 fn svc_case(job: &Job) {
     let n = job.u("n");
